@@ -253,7 +253,54 @@ def r04e(P, R):
             % ([(x["op"], lit_value(x["r"])) for x in cmp_]), loc=c.loc())
 
 
-RULES = [("R04-a", r04a), ("R04-b", r04b), ("R04-c", r04c), ("R04-d", r04d), ("R04-e", r04e)]
+def r04f(P, R):
+    """name spaces: operation names are unique among operations, fragment names among fragments — an operation and a fragment may
+    share a name (spec 5.2.1.1 / 5.5.1.1)"""
+    from templates import enclosing_contexts
+    e = P.fn(CK + "operation_checker::check_operation_document")
+    pv = Prov(e)
+    OD, FD = A + "operation::OperationDefinition", A + "operation::FragmentDefinition"
+    for variant, own, other in (("DuplicateOperationName", OD, FD), ("DuplicateFragmentName", FD, OD)):
+        sites = [i for i, (x, _) in enumerate(e.nodes()) if x.get("k") == "Struct" and "rest" not in x and norm(x.get("variant", "")).endswith(variant)]
+        R.floor("R04-f", variant + " sites", len(sites), 1)
+        for i in sites:
+            guards = [c for c in enclosing_contexts(e, i) if c[0] in ("if-then", "let-else")]
+            if not guards:
+                R.undecided("R04-f", "namespace:" + variant, "no guard found", loc=e.loc())
+                continue
+            g = guards[0][1]["cond"] if guards[0][0] == "if-then" else guards[0][1].get("init")
+            # fields of the *earlier* definition that the search predicate reads, callee bodies included
+            reads = {}
+            todo, seen = [g], set()
+            while todo:
+                x = todo.pop()
+                for y in subnodes(x):
+                    if y.get("k") == "Field" and norm(y.get("adt", "")) in (OD, FD):
+                        reads.setdefault(norm(y["adt"]), set()).add(y["field"])
+                    cn = call_name(y) if y.get("k") in ("Call", "MethodCall") else None
+                    if cn and cn in P.fns and cn not in seen and not P.fns[cn].derived:
+                        seen.add(cn)
+                        todo.append(P.fns[cn].body)
+                    if y.get("k") == "Path" and "local" in y and y["local"] not in seen:
+                        seen.add(y["local"])
+                        todo.extend(src for src, _ in pv.src.get(y["local"], []) if src is not None)
+            # the current definition's own name is read through its binding (outside the predicate); what matters is that the
+            # predicate never consults the *other* kind's name
+            bad = "name" in reads.get(other, set())
+            R.check("R04-f", "namespace:" + variant, "name" in reads.get(own, set()) and not bad,
+                    "%s compares names of %s only" % (variant, own.split("::")[-1]),
+                    "%s is raised by a search that also compares against the names of %s: `fragment User ...` followed by `query User ...` "
+                    "is rejected although operations and fragments live in separate name spaces" % (variant, other.split("::")[-1]), loc=e.loc())
+
+
+def _r03c(P, R):
+    # every check_directives site uses exactly the spec location of the position its directives come from (shared with C03:
+    # a wrong location both misses misplaced directives and rejects correctly placed ones)
+    from c03 import r03c
+    r03c(P, R, only_locations=True)
+
+
+RULES = [("R04-a", r04a), ("R04-b", r04b), ("R04-c", r04c), ("R04-d", r04d), ("R04-e", r04e), ("R04-f", r04f), ("R03-c", _r03c)]
 EXPLANATION = (
     "False-alarm freedom decided on finite tables read out of the code and compared with the GraphQL spec: (R04-a) literal kinds accepted "
     "per built-in scalar (Int literal for Float/ID), enum and input-object rows, required-ness = non-null and no default; (R04-b) the "
